@@ -355,6 +355,7 @@ def skeletons(fx, rep, rule, name, sy, res):
         idx_of = {}
         # every combinator call mentioned in the path conditions must use a cursor on the chain
         attempts = {}   # position index -> list of failed attempts
+        infeasible = False
         for a, pol in st.conds:
             if a[0] == "is" and a[2] == "Ok" and a[1][0] == "call" and (a[1][1] in {rp(n_) for n_ in COMB}):
                 c = a[1]
@@ -365,11 +366,21 @@ def skeletons(fx, rep, rule, name, sy, res):
                 i = positions.index(cur)
                 if pol:
                     if c not in chain_calls:
+                        # a literal probed successfully whose result is thrown away (`match parse_prefix(..) { Ok(r) if cond => .., _ => .. }`
+                        # with the guard false): the path continues at the same cursor. If the next step there is a different
+                        # literal, no input takes this path (the cursor cannot start with both) - it is not a path of the parser.
+                        if role_of(c[1]) == "parse_prefix" and i < len(chain) and chain[i][0] == "lit":
+                            b1, b2 = lit_bytes(c[2][1]), lit_bytes(chain[i][2])
+                            if b1 and b2 and not (b1.startswith(b2) or b2.startswith(b1)):
+                                infeasible = True
+                                continue
                         problems.append("result of %s is checked but its rest is not threaded on" % role_of(c[1]))
                     elif chain_calls.index(c) != i:
                         problems.append("step order differs from cursor order")
                 else:
                     attempts.setdefault(i, []).append(c)
+        if infeasible:
+            continue
         for i, (kind, c, extra) in enumerate(chain):
             for f in attempts.get(i, []):
                 events.append(("no-" + describe(fx, sy, f)[0], describe(fx, sy, f)[1]))
@@ -486,10 +497,27 @@ def check_member_parser(fx, rep, rule):
     rep.check(rule.replace(".2", ".5"), "%s/member/cursor-threading" % rule.replace(".2", ".5"), not problems, loc=F.short_file(b["sp"]),
               found=problems[:3] or "%d Ok paths: every combinator is applied to the rest returned by the previous step (or the unchanged cursor after a failed optional step)" % len(sk),
               expected="cursor threading (typestate): no stale cursor, every consumed step checked")
-    ref = ref_member_language()
+    def norm_events(events):
+        """drop negative lookaheads that the next positive literal implies: `no-lit(X)` (possibly followed by further no-* events)
+        in front of `lit(Y)` with Y not starting like X says nothing new. Returns (events, old index -> new index)."""
+        keep = []
+        for i, (k_, x_) in enumerate(events):
+            if k_ == "no-lit" and x_:
+                j = i + 1
+                while j < len(events) and events[j][0].startswith("no-"):
+                    j += 1
+                if j < len(events) and events[j][0] == "lit" and events[j][1] and events[j][1][:1] != x_[:1]:
+                    continue
+            keep.append(i)
+        return tuple(events[i] for i in keep), {old: new for new, old in enumerate(keep)}
+    ref = {}
+    for ev_, (capi_, flags_) in ref_member_language().items():
+        nev, rm = norm_events(ev_)
+        ref[nev] = ({k_: rm[i_] for k_, i_ in capi_.items()}, flags_)
     have = {}
     for events, rec, idx_of, st in sk:
-        have.setdefault(events, []).append((rec, idx_of, st))
+        nev, rm = norm_events(events)
+        have.setdefault(nev, []).append((rec, {c_: rm[i_] for c_, i_ in idx_of.items() if i_ in rm}, st))
     missing = [e for e in ref if e not in have]
     extra = [e for e in have if e not in ref]
     rep.check(rule, "%s/member/grammar" % rule, not missing and not extra, loc=F.short_file(b["sp"]),
